@@ -42,6 +42,19 @@ TPL_HOWS = (None, "transposed", "isel", "coords_rev", "extra_coords", "int_data"
 AXIS_VIAS = ("array", "array_step", "range", "plain")
 
 
+_FL = {}
+
+
+def floats(xs):
+    """the request's exact rational strings as floats (memoised: the same axis is used by many requests)"""
+    key = tuple(xs)
+    if key not in _FL:
+        if len(_FL) > 4000:
+            _FL.clear()
+        _FL[key] = fl(xs)
+    return list(_FL[key])
+
+
 def num(x):
     """a value / fill of the request: ints stay ints, rational strings become floats"""
     return x if isinstance(x, int) else float(frac(x))
@@ -59,7 +72,7 @@ def axis_variable(inp, which):
     """the coordinate variable of one axis (which = "time" | "freq"), carrying exactly the request's numbers"""
     import numpy as np
     from soundevent import arrays
-    vals = np.array(fl(inp[which]), dtype=float)
+    vals = np.array(floats(inp[which]), dtype=float)
     via = inp.get(which + "_via") or "array"
     from_array = arrays.create_time_dim_from_array if which == "time" else arrays.create_frequency_dim_from_array
     if via == "plain":
